@@ -1,6 +1,6 @@
 (* C31 — SFTP attribute changes have their local-filesystem meaning.
    Property statements only; every proof is `exact <lemma from Proofs/C31_proofs.v>`. *)
-From PV Require Import Bytes C31 C31_proofs.
+From PV Require Import Bytes C31_gen C31 C31_proofs.
 Open Scope Z_scope.
 
 (* chmod / chown / utime / truncate requests (by path: setstat, by handle: fsetstat; both run
@@ -73,6 +73,36 @@ Print Assumptions C31_unrequested_unchanged.
 Theorem C31_by_handle_same : forall now f a, fsetstat now f a = setstat now f a.
 Proof. exact by_handle_same. Qed.
 Print Assumptions C31_by_handle_same.
+
+(* sequences: any list of chmod/chown/utime/truncate requests (by path or by handle), interleaved
+   with arbitrary other changes g : file -> file (writes, touches by other processes), has the
+   effect of the corresponding sequence of os.* calls - a request never repeats an earlier one *)
+Theorem C31_sequence : forall evs f, fold_left sftp_event evs f = fold_left os_event evs f.
+Proof. exact sequence_spec. Qed.
+Print Assumptions C31_sequence.
+
+Theorem C31_later_request_independent :
+  forall now1 f n now2 at2 off b m,
+  let f1 := fsetstat now1 f (req_truncate n) in
+  let f2 := env_write at2 now2 f1 off b in
+  let f3 := fsetstat 0 f2 (req_chmod m) in
+  f_data f3 = f_data f2 /\ f_mtime f3 = f_mtime f2 /\ f_atime f3 = f_atime f2.
+Proof. exact later_request_independent. Qed.
+Print Assumptions C31_later_request_independent.
+
+(* tie to the source: the flag bits and the list of steps (flag tested, call made, order, open mode
+   of the resize) regenerated from paramiko's AST on this run are the ones modelled *)
+Theorem C31_source_steps : gen_steps = modelled_steps.
+Proof. exact steps_as_modelled. Qed.
+Print Assumptions C31_source_steps.
+
+Theorem C31_flag_bits_distinct :
+  Z.land FLAG_SIZE FLAG_UIDGID = 0 /\ Z.land FLAG_SIZE FLAG_PERMISSIONS = 0 /\ Z.land FLAG_SIZE FLAG_AMTIME = 0 /\
+  Z.land FLAG_UIDGID FLAG_PERMISSIONS = 0 /\ Z.land FLAG_UIDGID FLAG_AMTIME = 0 /\
+  Z.land FLAG_PERMISSIONS FLAG_AMTIME = 0 /\
+  0 < FLAG_SIZE /\ 0 < FLAG_UIDGID /\ 0 < FLAG_PERMISSIONS /\ 0 < FLAG_AMTIME.
+Proof. exact flag_bits_distinct. Qed.
+Print Assumptions C31_flag_bits_distinct.
 
 (* what the repair removed: with open(filename, "w+") the resized file is all zeros,
    so the leading bytes are lost (this is what the harness oracle guards against) *)
